@@ -159,6 +159,10 @@ class TaskLoader:
                 )
             )
             raise syntax_err from ex
+        except ConductorError:
+            # Not a problem with the included file: e.g., Conductor was
+            # aborted (SIGINT/SIGTERM) while the file was being evaluated.
+            raise
         except Exception as ex:
             run_err = TaskParseError(error_details=str(ex))
             run_err.add_file_context(
